@@ -29,12 +29,55 @@ def key_classes(reader):
 
 
 def omni_rewrite_pattern(repo):
-    """The pattern of the whole-document re.sub in OmniParser.parse (AST)."""
-    fn = repo.method("OmniParser", "parse")
+    """The pattern of the whole-document re.sub in OmniParser.parse (AST; the helpers it calls read in place)."""
+    from .canon import canon_method
+    try:
+        fn = canon_method(repo, "OmniParser", "parse")
+    except Exception:
+        fn = repo.method("OmniParser", "parse")
+    pm = repo.classes["OmniParser"].module
     for n in ast.walk(fn):
-        if isinstance(n, ast.Call) and norm(n.func) in ("re.sub", "re.subn") and n.args and isinstance(n.args[0], ast.Constant):
-            return n.args[0].value
+        if isinstance(n, ast.Call) and norm(n.func) in ("re.sub", "re.subn") and n.args:
+            a = n.args[0]
+            if isinstance(a, ast.Name):
+                for st in pm.tree.body:
+                    if isinstance(st, ast.Assign) and any(isinstance(t, ast.Name) and t.id == a.id for t in st.targets):
+                        a = st.value
+            if isinstance(a, ast.Call) and norm(a.func) == "re.compile" and a.args:
+                a = a.args[0]
+            if isinstance(a, ast.Constant) and isinstance(a.value, str):
+                return a.value
+            raise AnalysisError(f"the pattern of `{norm(n, 60)}` in OmniParser.parse is not a literal the analysis can read")
+        if isinstance(n, ast.Call) and isinstance(n.func, ast.Attribute) and n.func.attr in ("sub", "subn") and isinstance(n.func.value, ast.Name):
+            for st in pm.tree.body:
+                if isinstance(st, ast.Assign) and any(isinstance(t, ast.Name) and t.id == n.func.value.id for t in st.targets) \
+                        and isinstance(st.value, ast.Call) and norm(st.value.func) == "re.compile" and st.value.args \
+                        and isinstance(st.value.args[0], ast.Constant):
+                    return st.value.args[0].value
     return None
+
+
+def rule_dash_doc(repo, res):
+    """DASH-DOC: the whole-document rewrite of the permissive parser removes a dash continuation whatever the line end
+    of the file is -- LF, CR LF or CR -- together with the run of blanks that starts the next line.  A text stream
+    hands over LF where a binary stream or a path hands over CR LF, so a rewrite that knows only one of them makes the
+    entry points disagree."""
+    pat = omni_rewrite_pattern(repo)
+    if pat is None:
+        res.oblige("DASH-DOC", "OmniParser.parse performs no whole-document rewrite (dash continuation is left to the decoder)", ok=True)
+        return
+    L = SL.rx(pat)
+    blanks = SL.star(SL.syms([" ", "\t"]))
+    for name, e in (("LF", "\n"), ("CR LF", "\r\n"), ("CR", "\r")):
+        want = SL.concat(SL.lit("-" + e), blanks)
+        miss = _w(want - L, 2)
+        res.oblige("DASH-DOC", f"OmniParser.parse: {pat!r} matches '-' + {name} + any run of blanks as a whole", ok=not miss)
+        if miss:
+            res.add(Finding("DASH-DOC", "OmniParser.parse", f"{name} line end",
+                            f"the whole-document rewrite re.sub({pat!r}, '') of OmniParser.parse does not remove {miss} "
+                            f"as a whole: a dash-continued value in a label with {name} line ends keeps part of the line "
+                            "break, so the same file loads differently through a text stream (universal newlines) and "
+                            "through a path or binary stream", witness=miss[0]))
 
 
 def _encoder_job(args):
@@ -212,6 +255,22 @@ def _reader_job(args):
     pre = SL.rx(g.nondecimal_pre_re.pattern)
     out["tb8_full_not_triggered"] = _w(full - SL.concat(pre, SL.EVERYTHING), 2)
     out["tb8_trigger_not_completable"] = _w(pre - SL.prefix_closure(full), 2)
+    # NONDEC-SPEC: the based integers of the specification (PVL: radix 2, 8, 16 with the sign in front; ODL: radix 2..16
+    # with the sign after the first '#') are based integers for the reader.  The expected language is written here
+    # from the two specifications, not derived from the grammar's regexes.
+    mro = [k.__name__ for k in type(g).__mro__]
+    fam = "omni" if "OmniGrammar" in mro else ("odl" if "ODLGrammar" in mro else "pvl")
+    spec = SL.EMPTY if hasattr(SL, "EMPTY") else (SL.EPSILON - SL.EPSILON)
+    digs = "0123456789abcdef"
+    if fam in ("pvl", "omni"):
+        for r_ in (2, 8, 16):
+            cs = "".join(sorted(set(digs[:r_] + digs[:r_].upper())))
+            spec = spec | SL.rx(r"[+-]?%d#[%s]+#" % (r_, cs))
+    if fam in ("odl", "omni"):
+        for r_ in range(2, 17):
+            cs = "".join(sorted(set(digs[:r_] + digs[:r_].upper())))
+            spec = spec | SL.rx(r"%d#[+-]?[%s]+#" % (r_, cs))
+    out["nondec_spec"] = {"family": fam, "missing": _w(spec - full, 3)}
     from . import lexlang
     out["lex1"] = lexlang.check(repo, gcls, dcls)
     # Q1: every text of the form q + s + q (q a quote character not occurring in s) is a quoted string for the decoder
@@ -559,6 +618,20 @@ def rule_tb8(repo, res, an):
             res.add(Finding("TB8", f"grammar.{r['grammar']}", "lexer trigger ⊄ decoder prefixes",
                             f"{cfg}: the lexer keeps '#' inside a lexeme after {b} but no based integer of the decoder "
                             "starts that way", witness=b[0]))
+
+
+def rule_nondec_spec(repo, res, an):
+    for r in an["readers"]:
+        cfg = f"{r['decoder']}/{r['grammar']}"
+        d = r["nondec_spec"]
+        what = {"pvl": "radix 2, 8 or 16 with an optional sign in front (PVL)", "odl": "radix 2 to 16 with an optional sign after "
+                "the first '#' (ODL)", "omni": "both the PVL and the ODL forms"}[d["family"]]
+        res.oblige("NONDEC-SPEC", f"{cfg}: every based integer of the specification -- {what} -- is a based integer for the "
+                                  "decoder (language inclusion)", ok=not d["missing"])
+        if d["missing"]:
+            res.add(Finding("NONDEC-SPEC", f"grammar.{r['grammar']}", "specified based integers not accepted",
+                            f"{cfg}: based integers the dialect permits, e.g. {d['missing']}, are not accepted by "
+                            f"{r['decoder']}.decode_non_decimal (they load as text or are refused)", witness=d["missing"][0]))
 
 
 def rule_o2(repo, res, an):
